@@ -1,4 +1,4 @@
     ensures
-        r is Some <==> first_match(deque@, key) is Some, //@ C05+C07:search_finds_an_entry_iff_one_exists
-        r is Some ==> r->Some_0 == first_match(deque@, key)->Some_0, //@ C05+C07:search_returns_the_first_match
-        r is Some ==> r->Some_0 < deque@.len() && deque@[r->Some_0 as int].0 == key, //@ C05+C07:search_result_is_in_range_and_matches
+        r is Some <==> first_match(deque@, key) is Some, //@ C05+C06+C07+C09+C17:search_finds_an_entry_iff_one_exists
+        r is Some ==> r->Some_0 == first_match(deque@, key)->Some_0, //@ C05+C06+C07+C09+C17:search_returns_the_first_match
+        r is Some ==> r->Some_0 < deque@.len() && deque@[r->Some_0 as int].0 == key, //@ C05+C06+C07+C09+C17:search_result_is_in_range_and_matches
